@@ -166,6 +166,13 @@ def run(chk):
     # scoring code shared by all configurations: placement of weight vectors in the Fixed / Variable arms (shared with C01)
     from . import c01_addscore
     c01_addscore.run(chk, facts.world(cfgname(F)))
+    # the cached type scorer builds its table for the window size it is handed, the automaton scorers apply the stored weight
+    # vectors at their own offsets: only when the predictor hands the model's type window to TypeScorer::new do both agree
+    # (shared with C09; the character scorer uses its window the same way in every configuration and is not part of this property)
+    from . import c09
+    chk.rule("R09.1", "Predictor::new hands the model's own type n-gram model and type window to TypeScorer::new (shared with C09)")
+    with chk.only(rules={"R09.1"}, keys=lambda k: "type-scorer-args" in k or k.endswith(":scorers")):
+        c09.r091_predictor(chk, facts.world(cfgname(F)))
 
 
 def twins(chk):
